@@ -12,11 +12,12 @@ use std::collections::{BTreeSet, HashSet, VecDeque};
 pub const DEF: PropDef = PropDef {
     id: "C04",
     level: "model_checking",
-    rule: "states = physical fingerprints (hook H3) of the real DatasetIndex reached by op sequences over 12 quads, in two term universes (s,o in {1,2} with p=1; p in {1,5}, o in {1,2} with s=1), g in {Default,N7,N8} + graph create/clear/drop + clear + rebuild + facade aliases; in every state the complete observation table (all lookup shapes x graphs, named/merged/quads/membership/listing, QueryBuilder) is compared with a BTreeSet model; non-trivial = state with >=2 quads in >=2 graphs or an empty named graph; distinct = distinct physical fingerprints",
+    rule: "states = physical fingerprints (hook H3) of the real DatasetIndex reached by op sequences in four term universes: U0 (s,o in {1,2}, p=1), U1 (s=1, p in {1,5}, o in {1,2}), U2 (s in {1,2}, p in {1,5}, o=1) - 12 quads each over g in {Default,N7,N8}, so that every level of every nested index (gspo, gpos, gosp, spog) holds two keys in two of them - and U3 = the full 2x2x2 term cube over the same graphs (24 quads: all levels of all indexes hold two keys at once). Core ops: insert_quad / delete_quad per quad, graph create/clear/drop, clear, rebuild (build_all_indexes). Facade ops (BFS alphabet of U0-U2), each on EVERY triple of the universe: add_triple, delete_triple, DatasetIndex::insert / delete, add_quad / delete_quad (one named graph per triple, plus the default graph once) and the string facades add_triple_parts, delete_triple_parts, add_quad_parts (terms pre-encoded so that id k is the text t<k>). Part 1: undeduplicated tree over the core ops from the empty store, depth 3 (thorough: 4 for U0-U2), every op sequence executed on the real object; at every node the physical fingerprint is taken and the complete observation table is read unless this worker has already read it for the same (fingerprint, model) pair; a known fingerprint with a different expected model is a failure. Part 2: BFS to closure with de-duplication on the physical fingerprint (U0-U2: 4 624 states x 73 ops each; thorough also U3 over {Default,N7}: 65 792 states x 40 core ops); a transition landing on a known fingerprint is compared with the model that fingerprint was validated against. Observation table: all lookup shapes (s?,p?,o?) x graphs through query_graph / query_quads / query_graph_quads and the default-graph aliases, query_named_graphs under 8 visible sets (None, empty, {N7}, {N8}, {N7,N8}, {Default,N8,N9}, {Default}, {N9}), query_merged_graphs over every source list of length <= 2, one with an absent graph and two of length 3 ([Default,N7,N8], [N7,N8,N7]), contains_quad, graphs_for_triple, all_quads, graphs / named_graphs / graph_exists, len_graph, QueryBuilder - compared with a BTreeSet model; non-trivial = state with >=2 quads in >=2 graphs or an empty named graph; distinct = distinct physical fingerprints",
     assumptions: &[
-        "two term universes of 12 quads each: (s,o in {1,2}, p=1) and (s=1, p in {1,5}, o in {1,2}); graphs Default,N7,N8 (+absent ids 3,N9 in lookups)",
+        "term universes: U0 (s,o in {1,2}, p=1), U1 (s=1, p in {1,5}, o in {1,2}), U2 (s in {1,2}, p in {1,5}, o=1), U3 (s,o in {1,2}, p in {1,5}); graphs Default,N7,N8 (+absent ids 3,N9 in lookups)",
         "reference model: BTreeSet of quads + BTreeSet catalog (harness/src/props/c04.rs)",
-        "fingerprint de-duplication is sound because the H3 fingerprint dumps the complete private state",
+        "fingerprint de-duplication (BFS) and re-use of an observation for an identical (fingerprint, model) pair (tree) are sound because the H3 fingerprint dumps the complete private state (all five fields) and every read path is a function of it (results are compared sorted)",
+        "the string facades are called with terms that are already in the dictionary (t0..t9 pre-encoded in id order), so they denote the same quads as the id-level operations; the legacy pre-catalog fallbacks (reachable only by deserialising an old index) are outside the quantifier and not generated",
     ],
     run,
     replay,
@@ -25,22 +26,44 @@ pub const DEF: PropDef = PropDef {
 };
 
 const GRAPHS: [GraphId; 3] = [GraphId::Default, GraphId::Named(7), GraphId::Named(8)];
+const NUNIV: usize = 4;
 
-/// Two term universes of the same size (12 quads): universe 0 varies subject and object under one
-/// predicate, universe 1 varies predicate and object under one subject, so that every nested
-/// index (gspo, gpos, gosp, spog) sees more than one key at every level in one of them.
+/// Term universes. U0 varies subject and object under one predicate, U1 predicate and object under one
+/// subject, U2 subject and predicate under one object: 12 quads each, and every level of every nested
+/// index (gspo, gpos, gosp, spog) sees two keys in two of the three. U3 is the full 2x2x2 cube (all
+/// levels of all indexes hold two keys at the same time); its second op coordinate ranges over 1..=4
+/// and encodes (predicate, object).
 static UNIVERSE: std::sync::atomic::AtomicUsize = std::sync::atomic::AtomicUsize::new(0);
 
 fn set_universe(u: usize) {
     UNIVERSE.store(u, std::sync::atomic::Ordering::SeqCst);
 }
+fn universe() -> usize {
+    UNIVERSE.load(std::sync::atomic::Ordering::SeqCst)
+}
+/// range of the second op coordinate
+fn bmax(u: usize) -> u32 {
+    if u == 3 {
+        4
+    } else {
+        2
+    }
+}
+fn pred(k: u32) -> u32 {
+    if k == 1 {
+        1
+    } else {
+        5
+    }
+}
 
 /// the triple denoted by the op coordinates (a, b)
 fn spo(a: u32, b: u32) -> (u32, u32, u32) {
-    if UNIVERSE.load(std::sync::atomic::Ordering::SeqCst) == 0 {
-        (a, 1, b)
-    } else {
-        (1, if a == 1 { 1 } else { 5 }, b)
+    match universe() {
+        0 => (a, 1, b),
+        1 => (1, pred(a), b),
+        2 => (a, pred(b), 1),
+        _ => (a, pred((b + 1) / 2), (b - 1) % 2 + 1),
     }
 }
 
@@ -60,42 +83,74 @@ pub enum Op {
     FacadeDeleteQuad(u32, u32, usize),
     AliasInsert(u32, u32),
     AliasDelete(u32, u32),
+    // string facades on SparqlDatabase (terms t<k> are pre-encoded to id k)
+    PartsAddTriple(u32, u32),
+    PartsDeleteTriple(u32, u32),
+    PartsAddQuad(u32, u32, usize),
 }
 
-pub fn alphabet(full: bool) -> Vec<Op> {
+impl Op {
+    fn is_facade(&self) -> bool {
+        !matches!(self, Op::Insert(..) | Op::Delete(..) | Op::Create(_) | Op::ClearGraph(_) | Op::Drop(_) | Op::Clear | Op::Rebuild)
+    }
+    fn is_parts(&self) -> bool {
+        matches!(self, Op::PartsAddTriple(..) | Op::PartsDeleteTriple(..) | Op::PartsAddQuad(..))
+    }
+    fn kind(&self) -> String {
+        format!("{:?}", self).split('(').next().unwrap_or("").to_string()
+    }
+}
+
+/// alphabet of universe `u` over the first `ngraphs` graphs of GRAPHS; `full` adds every facade on
+/// every triple of the universe
+pub fn alphabet(u: usize, full: bool, ngraphs: usize) -> Vec<Op> {
     let mut v = Vec::new();
-    for g in 0..3 {
-        for s in 1..=2 {
-            for o in 1..=2 {
-                v.push(Op::Insert(s, o, g));
+    let bm = bmax(u);
+    for g in 0..ngraphs {
+        for a in 1..=2 {
+            for b in 1..=bm {
+                v.push(Op::Insert(a, b, g));
             }
         }
     }
-    for g in 0..3 {
-        for s in 1..=2 {
-            for o in 1..=2 {
-                v.push(Op::Delete(s, o, g));
+    for g in 0..ngraphs {
+        for a in 1..=2 {
+            for b in 1..=bm {
+                v.push(Op::Delete(a, b, g));
             }
         }
     }
-    for g in 0..3 {
+    for g in 0..ngraphs {
         v.push(Op::Create(g));
     }
-    for g in 0..3 {
+    for g in 0..ngraphs {
         v.push(Op::ClearGraph(g));
     }
-    for g in 0..3 {
+    for g in 0..ngraphs {
         v.push(Op::Drop(g));
     }
     v.push(Op::Clear);
     v.push(Op::Rebuild);
     if full {
-        v.push(Op::FacadeAddTriple(1, 2));
-        v.push(Op::FacadeDeleteTriple(1, 2));
-        v.push(Op::FacadeAddQuad(2, 1, 1));
-        v.push(Op::FacadeDeleteQuad(2, 1, 1));
-        v.push(Op::AliasInsert(2, 2));
-        v.push(Op::AliasDelete(2, 2));
+        let named = ngraphs - 1; // named graphs available: indexes 1..=named
+        for a in 1..=2u32 {
+            for b in 1..=bm {
+                v.push(Op::FacadeAddTriple(a, b));
+                v.push(Op::FacadeDeleteTriple(a, b));
+                v.push(Op::AliasInsert(a, b));
+                v.push(Op::AliasDelete(a, b));
+                v.push(Op::PartsAddTriple(a, b));
+                v.push(Op::PartsDeleteTriple(a, b));
+                // the id-level quad facades on one named graph per triple, the string facade on the other
+                let g1 = 1 + ((a + b) as usize) % named;
+                let g2 = 1 + ((a + b + 1) as usize) % named;
+                v.push(Op::FacadeAddQuad(a, b, g1));
+                v.push(Op::FacadeDeleteQuad(a, b, g1));
+                v.push(Op::PartsAddQuad(a, b, g2));
+            }
+        }
+        v.push(Op::FacadeAddQuad(2, 1, 0));
+        v.push(Op::FacadeDeleteQuad(2, 1, 0));
     }
     v
 }
@@ -105,7 +160,9 @@ fn op_json(op: &Op) -> Value {
 }
 
 fn parse_op(s: &str) -> Option<Op> {
-    alphabet(true).into_iter().find(|o| format!("{:?}", o) == s)
+    // the maximal alphabet of the current universe (set before parsing)
+    let u = universe();
+    alphabet(u, true, 3).into_iter().chain(alphabet(u, true, 2)).find(|o| format!("{:?}", o) == s)
 }
 
 #[derive(Clone, Default, PartialEq, Eq, Hash, Debug)]
@@ -125,7 +182,7 @@ impl Model {
     /// returns the value the mutator must return (None = unit)
     fn apply(&mut self, op: &Op) -> Option<bool> {
         match *op {
-            Op::Insert(s, o, g) | Op::FacadeAddQuad(s, o, g) => {
+            Op::Insert(s, o, g) | Op::FacadeAddQuad(s, o, g) | Op::PartsAddQuad(s, o, g) => {
                 let g = GRAPHS[g];
                 if let Some(n) = gname(g) {
                     self.catalog.insert(n);
@@ -168,7 +225,7 @@ impl Model {
                 None
             }
             Op::Rebuild => None,
-            Op::FacadeAddTriple(s, o) => {
+            Op::FacadeAddTriple(s, o) | Op::PartsAddTriple(s, o) => {
                 let t = spo(s, o);
                 self.quads.insert((t.0, t.1, t.2, GraphId::Default));
                 None
@@ -177,7 +234,7 @@ impl Model {
                 let t = spo(s, o);
                 Some(self.quads.insert((t.0, t.1, t.2, GraphId::Default)))
             }
-            Op::FacadeDeleteTriple(s, o) | Op::AliasDelete(s, o) => {
+            Op::FacadeDeleteTriple(s, o) | Op::AliasDelete(s, o) | Op::PartsDeleteTriple(s, o) => {
                 let t = spo(s, o);
                 Some(self.quads.remove(&(t.0, t.1, t.2, GraphId::Default)))
             }
@@ -195,6 +252,11 @@ fn fresh_db() -> SparqlDatabase {
         }
     }
     db
+}
+
+/// the text fresh_db() gave identifier k
+fn tname(k: u32) -> String {
+    format!("t{}", k)
 }
 
 fn apply_real(db: &mut SparqlDatabase, op: &Op) -> Option<bool> {
@@ -232,6 +294,23 @@ fn apply_real(db: &mut SparqlDatabase, op: &Op) -> Option<bool> {
         Op::FacadeDeleteQuad(s, o, g) => Some(db.delete_quad(&q(s, o, g))),
         Op::AliasInsert(s, o) => Some(db.dataset_index.insert(&tr(s, o))),
         Op::AliasDelete(s, o) => Some(db.dataset_index.delete(&tr(s, o))),
+        Op::PartsAddTriple(s, o) => {
+            let t = spo(s, o);
+            db.add_triple_parts(&tname(t.0), &tname(t.1), &tname(t.2));
+            None
+        }
+        Op::PartsDeleteTriple(s, o) => {
+            let t = spo(s, o);
+            Some(db.delete_triple_parts(&tname(t.0), &tname(t.1), &tname(t.2)))
+        }
+        Op::PartsAddQuad(s, o, g) => {
+            let t = spo(s, o);
+            let gn = match GRAPHS[g] {
+                GraphId::Named(n) => n,
+                GraphId::Default => unreachable!("add_quad_parts takes a graph name"),
+            };
+            Some(db.add_quad_parts(&tname(t.0), &tname(t.1), &tname(t.2), &tname(gn)))
+        }
     }
 }
 
@@ -262,7 +341,23 @@ pub fn observe(db: &SparqlDatabase, m: &Model) -> Result<u64, String> {
         Some([GraphId::Named(8)].into_iter().collect()),
         Some([GraphId::Named(7), GraphId::Named(8)].into_iter().collect()),
         Some([GraphId::Default, GraphId::Named(8), GraphId::Named(9)].into_iter().collect()),
+        // only the default graph / only an absent graph visible: every named graph is filtered out, in
+        // the fully-bound fast path and in the per-graph loop
+        Some([GraphId::Default].into_iter().collect()),
+        Some([GraphId::Named(9)].into_iter().collect()),
     ];
+    // merged graphs: every ordered source list of length <= 2, one with an absent graph, and two of
+    // length 3 (all three sources; a repeated source around another one)
+    let mut lists: Vec<Vec<GraphId>> = vec![vec![]];
+    for &a in &GRAPHS {
+        lists.push(vec![a]);
+        for &b in &GRAPHS {
+            lists.push(vec![a, b]);
+        }
+    }
+    lists.push(vec![GraphId::Named(9), GraphId::Named(7)]);
+    lists.push(vec![GraphId::Default, GraphId::Named(7), GraphId::Named(8)]);
+    lists.push(vec![GraphId::Named(7), GraphId::Named(8), GraphId::Named(7)]);
     for &s in &svals {
         for &p in &pvals {
             for &o in &ovals {
@@ -327,15 +422,6 @@ pub fn observe(db: &SparqlDatabase, m: &Model) -> Result<u64, String> {
                 if got != exp {
                     return Err(format!("query_quads({:?},{:?},{:?},None) = {:?}, expected {:?}", s, p, o, got, exp));
                 }
-                // merged graphs: every ordered source list of length <= 2
-                let mut lists: Vec<Vec<GraphId>> = vec![vec![]];
-                for &a in &GRAPHS {
-                    lists.push(vec![a]);
-                    for &b in &GRAPHS {
-                        lists.push(vec![a, b]);
-                    }
-                }
-                lists.push(vec![GraphId::Named(9), GraphId::Named(7)]);
                 for l in &lists {
                     let got = sorted_triples(idx.query_merged_graphs(l, s, p, o));
                     let exp: BTreeSet<(u32, u32, u32)> = m.quads.iter().filter(|q| l.contains(&q.3) && matches(q, s, p, o)).map(|q| (q.0, q.1, q.2)).collect();
@@ -418,11 +504,13 @@ pub fn observe(db: &SparqlDatabase, m: &Model) -> Result<u64, String> {
         if got != exp {
             return Err(format!("QueryBuilder.with_subject(t{}) = {:?}, expected {:?}", s, got, exp));
         }
-        let got: Vec<(u32, u32, u32)> = db.query().with_predicate(&name(1)).with_object(&name(s)).get_triples().into_iter().map(|t| (t.subject, t.predicate, t.object)).collect();
-        let exp: Vec<(u32, u32, u32)> = m.quads.iter().filter(|q| q.3 == GraphId::Default && q.1 == 1 && q.2 == s).map(|q| (q.0, q.1, q.2)).collect();
-        lookups += 1;
-        if got != exp {
-            return Err(format!("QueryBuilder.with_object(t{}) = {:?}, expected {:?}", s, got, exp));
+        for p in [1u32, 5] {
+            let got: Vec<(u32, u32, u32)> = db.query().with_predicate(&name(p)).with_object(&name(s)).get_triples().into_iter().map(|t| (t.subject, t.predicate, t.object)).collect();
+            let exp: Vec<(u32, u32, u32)> = m.quads.iter().filter(|q| q.3 == GraphId::Default && q.1 == p && q.2 == s).map(|q| (q.0, q.1, q.2)).collect();
+            lookups += 1;
+            if got != exp {
+                return Err(format!("QueryBuilder.with_predicate(t{}).with_object(t{}) = {:?}, expected {:?}", p, s, got, exp));
+            }
         }
     }
     let n = db.query().count();
@@ -459,16 +547,53 @@ fn run_sequence(ops: &[Op]) -> Result<(SparqlDatabase, Model, u64), (usize, Stri
 
 fn fail_seq(out: &mut ShardOut, ops: &[Op], step: usize, msg: String) {
     let upto: Vec<Value> = ops[..=step].iter().map(op_json).collect();
-    let mut tags = vec![format!("last_op={}", format!("{:?}", ops[step]).split('(').next().unwrap_or(""))];
+    let mut tags = vec![format!("last_op={}", ops[step].kind())];
     if ops[..=step].iter().any(|o| matches!(o, Op::Rebuild)) {
         tags.push("uses_rebuild".into());
     }
-    tags.push(format!("universe={}", UNIVERSE.load(std::sync::atomic::Ordering::SeqCst)));
-    out.fail(json!({"ops": upto, "universe": UNIVERSE.load(std::sync::atomic::Ordering::SeqCst)}), "read_path_disagrees_with_model", msg, std::mem::take(&mut tags));
+    if ops[step].is_facade() {
+        tags.push(if ops[step].is_parts() { "last_op_is_string_facade".into() } else { "last_op_is_id_facade".into() });
+    }
+    tags.push(format!("universe={}", universe()));
+    out.fail(json!({"ops": upto, "universe": universe()}), "read_path_disagrees_with_model", msg, tags);
+}
+
+/// physical fingerprint (hook H3) reduced to 128 bits
+type Fp = (u64, u64);
+fn fingerprint(db: &SparqlDatabase) -> Fp {
+    let f = db.dataset_index.verif_fingerprint();
+    (hash64(&f), hash64(&(0x9e37_79b9u32, &f)))
+}
+/// physical fingerprint -> hash of the model the complete observation table was read against (and agreed with)
+type Memo = std::collections::HashMap<Fp, u64>;
+
+/// Compare the real state with the model: the observation table is read unless this very physical
+/// state has already been read against this very model in this worker (every read path is a function
+/// of the five private fields the H3 fingerprint dumps, and results are compared sorted). A known
+/// physical state reached with a DIFFERENT expected model is a disagreement.
+/// Ok(Some(lookups)) = table read, Ok(None) = reused.
+fn observe_memo(db: &SparqlDatabase, m: &Model, memo: &mut Memo, out: &mut ShardOut) -> Result<Option<u64>, String> {
+    let fp = fingerprint(db);
+    let mh = hash64(m);
+    match memo.get(&fp) {
+        Some(v) if *v == mh => Ok(None),
+        Some(_) => match observe(db, m) {
+            Err(e) => Err(e),
+            Ok(_) => {
+                out.machinery_errors.push(format!("one physical fingerprint agreed with two different models (fingerprint collision?): {:?}", m));
+                Ok(None)
+            }
+        },
+        None => {
+            let l = observe(db, m)?;
+            memo.insert(fp, mh);
+            Ok(Some(l))
+        }
+    }
 }
 
 /// apply the last op of `ops` to (db, m); check the return value and (if `observe_it`) the table
-fn step_and_check(db: &mut SparqlDatabase, m: &mut Model, ops: &[Op], observe_it: bool, out: &mut ShardOut) -> bool {
+fn step_and_check(db: &mut SparqlDatabase, m: &mut Model, ops: &[Op], observe_it: bool, memo: &mut Memo, out: &mut ShardOut) -> bool {
     let op = ops.last().unwrap();
     let exp = m.apply(op);
     let got = apply_real(db, op);
@@ -482,8 +607,12 @@ fn step_and_check(db: &mut SparqlDatabase, m: &mut Model, ops: &[Op], observe_it
         out.evaluations += 1;
         out.traces += 1;
         out.count("tree_nodes", 1);
-        match observe(db, m) {
-            Ok(l) => out.count("tree_lookups", l),
+        match observe_memo(db, m, memo, out) {
+            Ok(Some(l)) => {
+                out.count("tree_lookups", l);
+                out.count("tree_nodes_table_read", 1);
+            }
+            Ok(None) => out.count("tree_nodes_same_physical_state_and_model_as_an_earlier_node", 1),
             Err(e) => {
                 fail_seq(out, ops, ops.len() - 1, format!("after {:?}: {}", op, e));
                 return false;
@@ -492,17 +621,18 @@ fn step_and_check(db: &mut SparqlDatabase, m: &mut Model, ops: &[Op], observe_it
         if nontrivial(m) {
             out.count("tree_nontrivial_nodes", 1);
         }
+        state_facts(m, "tree_nodes", out);
     }
     true
 }
 
-fn dfs(db: &SparqlDatabase, m: &Model, ops: &mut Vec<Op>, depth: usize, alpha: &[Op], out: &mut ShardOut, ctx: &Ctx) {
+fn dfs(db: &SparqlDatabase, m: &Model, ops: &mut Vec<Op>, depth: usize, alpha: &[Op], memo: &mut Memo, out: &mut ShardOut, ctx: &Ctx) {
     if ops.len() >= depth {
         return;
     }
     if ctx.expired() {
-        if out.capped.is_empty() {
-            out.capped.push("wall-clock cap hit during tree search".into());
+        if !out.capped.iter().any(|c| c.contains("tree search")) {
+            out.capped.push(format!("wall-clock cap hit during tree search of universe {}", universe()));
         }
         return;
     }
@@ -510,72 +640,135 @@ fn dfs(db: &SparqlDatabase, m: &Model, ops: &mut Vec<Op>, depth: usize, alpha: &
         let mut db2 = db.clone();
         let mut m2 = m.clone();
         ops.push(op.clone());
-        if step_and_check(&mut db2, &mut m2, ops, true, out) {
-            dfs(&db2, &m2, ops, depth, alpha, out, ctx);
+        if step_and_check(&mut db2, &mut m2, ops, true, memo, out) {
+            dfs(&db2, &m2, ops, depth, alpha, memo, out, ctx);
         }
         ops.pop();
     }
 }
 
+/// structural facts about a model state, for the vacuity counters
+fn state_facts(m: &Model, prefix: &str, out: &mut ShardOut) {
+    let mut two_s_two_p = false;
+    let mut cube = false;
+    for g in GRAPHS {
+        let ss: BTreeSet<u32> = m.quads.iter().filter(|q| q.3 == g).map(|q| q.0).collect();
+        let ps: BTreeSet<u32> = m.quads.iter().filter(|q| q.3 == g).map(|q| q.1).collect();
+        let os: BTreeSet<u32> = m.quads.iter().filter(|q| q.3 == g).map(|q| q.2).collect();
+        if ss.len() >= 2 && ps.len() >= 2 {
+            two_s_two_p = true;
+            if os.len() >= 2 {
+                cube = true;
+            }
+        }
+    }
+    if two_s_two_p {
+        out.count(&format!("{}_two_subjects_and_two_predicates_in_one_graph", prefix), 1);
+    }
+    if cube {
+        out.count(&format!("{}_two_subjects_predicates_and_objects_in_one_graph", prefix), 1);
+    }
+    let triples: BTreeSet<(u32, u32, u32)> = m.quads.iter().map(|q| (q.0, q.1, q.2)).collect();
+    if triples.iter().any(|t| GRAPHS.iter().all(|g| m.quads.contains(&(t.0, t.1, t.2, *g)))) {
+        out.count(&format!("{}_same_triple_in_all_three_graphs", prefix), 1);
+    }
+}
+
+/// number of shards that run a BFS (one universe each); the others share the trees
+fn bfs_universes(ctx: &Ctx) -> usize {
+    if ctx.thorough() {
+        4
+    } else {
+        3
+    }
+}
+
+/// tree cases are spread over the shards that do not run a BFS (when there are enough shards)
+fn tree_mine(ctx: &Ctx, idx: u64) -> bool {
+    let nb = bfs_universes(ctx);
+    if ctx.nshards >= nb + 4 {
+        ctx.shard >= nb && (idx % (ctx.nshards - nb) as u64) as usize == ctx.shard - nb
+    } else {
+        ctx.mine(idx)
+    }
+}
+
 fn run(ctx: &Ctx) -> ShardOut {
-    set_universe(0);
-    let mut out = run_one(ctx, 0);
-    set_universe(1);
-    out.merge(run_one(ctx, 1 % ctx.nshards));
+    let mut out = ShardOut::default();
+    let t0 = std::time::Instant::now();
+    let mut memo = Memo::new();
+    for u in 0..NUNIV {
+        set_universe(u);
+        tree(ctx, u, &mut memo, &mut out);
+    }
+    out.max("max_ms_tree_part_of_one_shard", t0.elapsed().as_millis() as u64);
+    for u in 0..bfs_universes(ctx) {
+        if ctx.shard == u % ctx.nshards {
+            let t1 = std::time::Instant::now();
+            set_universe(u);
+            bfs(ctx, u, &mut out);
+            out.max("max_ms_bfs_of_one_universe", t1.elapsed().as_millis() as u64);
+        }
+    }
     set_universe(0);
     out
 }
 
-fn run_one(ctx: &Ctx, bfs_shard: usize) -> ShardOut {
-    let mut out = ShardOut::default();
-    let full = alphabet(true);
-    let core = alphabet(false);
-
-    // Part 1: plain tree search (no de-duplication at all) over the core alphabet from the
-    // empty store: depth-first, every node = one op sequence, observed once. Sharded by the
-    // first two ops.
-    {
-        let depth = if ctx.thorough() { 4 } else { 3 };
-        let n = core.len();
-        let mut idx = 0u64;
-        for a in 0..n {
-            for b in 0..n {
-                idx += 1;
-                if !ctx.mine(idx) {
-                    continue;
-                }
-                let mut db = fresh_db();
-                let mut m = Model::default();
-                let mut ops = vec![core[a].clone()];
-                // the depth-1 node is observed by the shard owning (a, 0)
-                let first_ok = step_and_check(&mut db, &mut m, &ops, b == 0, &mut out);
-                if !first_ok {
-                    continue;
-                }
-                ops.push(core[b].clone());
-                if !step_and_check(&mut db, &mut m, &ops, true, &mut out) {
-                    continue;
-                }
-                dfs(&db, &m, &mut ops, depth, &core, &mut out, ctx);
+/// Part 1: plain tree search (no de-duplication at all) over the core alphabet from the empty
+/// store: depth-first, every node = one op sequence, observed once. Sharded by the first two ops.
+fn tree(ctx: &Ctx, u: usize, memo: &mut Memo, out: &mut ShardOut) {
+    // U3 (24 quads, 59 ops): depth 3 in both tiers
+    let core = alphabet(u, false, 3);
+    let depth = if ctx.thorough() && u != 3 { 4 } else { 3 };
+    let n = core.len();
+    let mut idx = 0u64;
+    let nodes_before = out.counters.get("tree_nodes").copied().unwrap_or(0);
+    for a in 0..n {
+        for b in 0..n {
+            idx += 1;
+            if !tree_mine(ctx, idx) {
+                continue;
             }
+            let mut db = fresh_db();
+            let mut m = Model::default();
+            let mut ops = vec![core[a].clone()];
+            // the depth-1 node is observed by the shard owning (a, 0)
+            let first_ok = step_and_check(&mut db, &mut m, &ops, b == 0, memo, out);
+            if !first_ok {
+                continue;
+            }
+            ops.push(core[b].clone());
+            if !step_and_check(&mut db, &mut m, &ops, true, memo, out) {
+                continue;
+            }
+            dfs(&db, &m, &mut ops, depth, &core, memo, out, ctx);
         }
-        out.count("max_tree_depth", depth as u64);
     }
+    let nodes = out.counters.get("tree_nodes").copied().unwrap_or(0) - nodes_before;
+    out.count(&format!("tree_nodes_universe_{}", u), nodes);
+    out.max("max_tree_depth", depth as u64);
+    out.max(&format!("max_tree_alphabet_universe_{}", u), n as u64);
+}
 
-    // Part 2: breadth-first search with de-duplication on the physical fingerprint.
-    if ctx.shard != bfs_shard {
-        return out;
-    }
+/// Part 2: breadth-first search with de-duplication on the physical fingerprint, full alphabet
+/// (core ops + every facade on every triple).
+fn bfs(ctx: &Ctx, u: usize, out: &mut ShardOut) {
+    // U3 (thorough only): closure over the graphs Default and N7 (65 792 states)
+    let ngraphs = if u == 3 { 2 } else { 3 };
+    // (U3: core ops only; the facades are crossed on every triple of U0-U2)
+    let full = alphabet(u, u != 3, ngraphs);
     let max_depth: u64 = 64;
     // physical fingerprint -> hash of the abstract model that was fully observed against it
-    let mut seen: std::collections::HashMap<u64, u64> = std::collections::HashMap::new();
+    let mut seen: Memo = Memo::new();
     let mut abstract_seen: HashSet<u64> = HashSet::new();
     let mut frontier: VecDeque<(SparqlDatabase, Model, Vec<u16>)> = VecDeque::new();
     let db0 = fresh_db();
-    seen.insert(hash64(&db0.dataset_index.verif_fingerprint()), hash64(&Model::default()));
+    seen.insert(fingerprint(&db0), hash64(&Model::default()));
     frontier.push_back((db0, Model::default(), vec![]));
-    out.states = 1;
+    out.states += 1;
+    let mut states_here = 1u64;
     let mut closed = true;
+    let ops_of = |p: &[u16]| -> Vec<Op> { p.iter().map(|i| full[*i as usize].clone()).collect() };
     'bfs: while let Some((db, m, path)) = frontier.pop_front() {
         if path.len() as u64 >= max_depth {
             closed = false;
@@ -583,12 +776,12 @@ fn run_one(ctx: &Ctx, bfs_shard: usize) -> ShardOut {
         }
         for (oi, op) in full.iter().enumerate() {
             if ctx.expired() {
-                out.capped.push(format!("wall-clock cap hit during BFS at depth {}", path.len()));
+                out.capped.push(format!("wall-clock cap hit during BFS of universe {} at depth {}", u, path.len()));
                 closed = false;
                 break 'bfs;
             }
             let mut db2 = db.clone();
-            // clone() shares the dictionary Arc, which is never written here
+            // clone() shares the dictionary Arc; the string facades only look up terms it already holds
             let mut m2 = m.clone();
             let exp = m2.apply(op);
             let got = apply_real(&mut db2, op);
@@ -596,12 +789,24 @@ fn run_one(ctx: &Ctx, bfs_shard: usize) -> ShardOut {
             out.evaluations += 1;
             let mut p2 = path.clone();
             p2.push(oi as u16);
-            let ops: Vec<Op> = p2.iter().map(|i| full[*i as usize].clone()).collect();
+            if op.is_facade() {
+                out.count("bfs_facade_transitions", 1);
+                if m2 != m {
+                    out.count("bfs_facade_transitions_changing_the_dataset", 1);
+                }
+                if op.is_parts() {
+                    out.count("bfs_string_facade_transitions", 1);
+                    if m2 != m {
+                        out.count("bfs_string_facade_transitions_changing_the_dataset", 1);
+                    }
+                }
+            }
             if got != exp {
-                fail_seq(&mut out, &ops, ops.len() - 1, format!("{:?} returned {:?}, model says {:?}", op, got, exp));
+                let ops = ops_of(&p2);
+                fail_seq(out, &ops, ops.len() - 1, format!("{:?} returned {:?}, model says {:?}", op, got, exp));
                 continue;
             }
-            let fp = hash64(&db2.dataset_index.verif_fingerprint());
+            let fp = fingerprint(&db2);
             if let Some(validated) = seen.get(&fp) {
                 // This physical state was observed completely (all_quads, catalog, every lookup
                 // shape) against the model stored with it, so it denotes exactly that model. A
@@ -609,11 +814,13 @@ fn run_one(ctx: &Ctx, bfs_shard: usize) -> ShardOut {
                 // state (e.g. a rebuild dropping an empty graph, a delete removing a sibling key).
                 out.count("dedup_hits", 1);
                 if *validated != hash64(&m2) {
-                    let detail = match observe(&db2, &m2) {
-                        Err(e) => e,
-                        Ok(_) => "physical state already validated against a different abstract model".to_string(),
-                    };
-                    fail_seq(&mut out, &ops, ops.len() - 1, format!("after {:?}: {}", op, detail));
+                    match observe(&db2, &m2) {
+                        Err(e) => {
+                            let ops = ops_of(&p2);
+                            fail_seq(out, &ops, ops.len() - 1, format!("after {:?}: {}", op, e));
+                        }
+                        Ok(_) => out.machinery_errors.push(format!("one physical fingerprint agreed with two different models (fingerprint collision?): {:?}", m2)),
+                    }
                 }
                 continue;
             }
@@ -621,40 +828,55 @@ fn run_one(ctx: &Ctx, bfs_shard: usize) -> ShardOut {
             match observe(&db2, &m2) {
                 Ok(l) => out.count("bfs_lookups", l),
                 Err(e) => {
-                    fail_seq(&mut out, &ops, ops.len() - 1, format!("after {:?}: {}", op, e));
+                    let ops = ops_of(&p2);
+                    fail_seq(out, &ops, ops.len() - 1, format!("after {:?}: {}", op, e));
                     continue;
                 }
             }
+            if op.is_facade() {
+                // never seen on the unchanged tree: the facades are aliases, so the closure under the
+                // core ops is already closed under them
+                out.count("bfs_states_first_reached_through_a_facade", 1);
+            }
             out.states += 1;
+            states_here += 1;
             out.traces += 1;
             out.max_depth = out.max_depth.max(p2.len() as u64);
             abstract_seen.insert(hash64(&m2));
             if nontrivial(&m2) {
-                out.nontrivial.insert(fp);
+                out.nontrivial.insert(fp.0);
             }
+            state_facts(&m2, "bfs_states", out);
             out.outcome(&m2);
-            if out.states % 1500 == 7 {
-                out.sample(json!({"ops": ops.iter().map(op_json).collect::<Vec<_>>(), "model_quads": m2.quads.len(), "catalog": m2.catalog}));
+            if states_here % 1500 == 7 {
+                out.sample(json!({"universe": u, "ops": ops_of(&p2).iter().map(op_json).collect::<Vec<_>>(), "model_quads": m2.quads.len(), "catalog": m2.catalog}));
             }
             frontier.push_back((db2, m2, p2));
         }
     }
     out.count("abstract_states", abstract_seen.len() as u64);
     out.count("physical_states", seen.len() as u64);
+    out.count(&format!("physical_states_universe_{}", u), seen.len() as u64);
     out.count("bfs_closed_reachable_set", closed as u64);
-    if !closed && ctx.thorough() && out.capped.is_empty() {
-        out.capped.push(format!("BFS depth bound {} reached before closure", max_depth));
+    out.max("max_bfs_alphabet", full.len() as u64);
+    if !closed && out.capped.is_empty() {
+        out.capped.push(format!("BFS depth bound {} reached before closure (universe {})", max_depth, u));
     }
-    out
 }
 
 fn replay(_ctx: &Ctx, case: &Value) -> ShardOut {
     let mut out = ShardOut::default();
-    set_universe(case["universe"].as_u64().unwrap_or(0) as usize);
-    let ops: Vec<Op> = case["ops"].as_array().map(|a| a.iter().filter_map(|v| v.as_str().and_then(parse_op)).collect()).unwrap_or_default();
+    set_universe((case["universe"].as_u64().unwrap_or(0) as usize).min(NUNIV - 1));
+    let names: Vec<&str> = case["ops"].as_array().map(|a| a.iter().filter_map(|v| v.as_str()).collect()).unwrap_or_default();
+    let ops: Vec<Op> = names.iter().filter_map(|v| parse_op(v)).collect();
+    if ops.len() != names.len() || ops.is_empty() {
+        out.machinery_errors.push(format!("replay file does not describe a C04 case of universe {}: {}", universe(), case));
+        return out;
+    }
     out.evaluations = 1;
     if let Err((step, msg)) = run_sequence(&ops) {
         fail_seq(&mut out, &ops, step, msg);
     }
+    set_universe(0);
     out
 }
